@@ -8,4 +8,5 @@ import BufProofs.Props.C09
 #print axioms BufProofs.C09.complete_is_stable
 #print axioms BufProofs.C09.failed_store_not_complete
 #print axioms BufProofs.C09.later_store_repairs
+#print axioms BufProofs.C09.store_success_then_hit
 #print axioms BufProofs.C09.provider_never_returns_missing
